@@ -91,6 +91,11 @@ func propGen(prop, tier string, idx int) GenOpts {
 		conc(1, 1)
 		o.WOp = [8]int{0, 12, 6, 2, 0, 0, 0, 0}
 		o.MaxOps = 10
+		if idx%4 == 1 {
+			// one registration visible under several interface aliases / group memberships
+			o.PAs, o.PAs2, o.PGroup, o.PName = 500, 650, 450, 150
+			o.WOp = [8]int{0, 8, 9, 2, 0, 0, 0, 0}
+		}
 	case "C05":
 		o.PCycle = 500
 		o.PDup = 120
